@@ -623,6 +623,15 @@ def tecmp_jobs():
                     unwindset={("TECMP7Decoder", None): 3, ("_M_realloc_insert", None): 3, ("_M_release", None): 3, ("_Sp_counted", None): 3},
                     tier="quick", in_max=2 * 64 + 8, mem_gb=10, timeout=400,
                     sym="all bytes of both status frames except routing/type/length, serial number and version bytes", outside="two calls; concrete serial number and version bytes"))
+    # every message type value (one concrete shape each: a symbolic type byte, even restricted to the unsupported values, makes
+    # CBMC encode all three supported paths under unsatisfiable guards and runs out of memory) ...
+    for mt in range(256):
+        if mt not in (1, 2, 3):
+            add(40, mt, tier="thorough")
+    # ... and the data types that a masked / byte-swapped / truncated comparison would confuse with CAN, CAN-FD, LIN
+    for dt in sorted(set(range(256)) | {(h << 8) | l for h in range(1, 256) for l in (2, 3, 4)} | {0x0200, 0x0300, 0x0400}):
+        if dt not in (2, 3, 4):
+            add(44, 3, dt=dt, dlc=8, tier="quick" if dt in (0x0102, 0x0200, 0x8003, 0xFF04) else "thorough")
     # unsupported message kinds
     for mt in (0, 4, 0x0A, 0x55, 0xFF):
         for n in (28, 40, 60):
@@ -660,7 +669,12 @@ PROPS["C15"] = {"jobs": tecmp_jobs, "assumptions": COMMON_ASSUME + [
     "TECMP capture-module status conversion (message type 1) is outside this check: std::stringstream/std::to_string are out-of-line in libstdc++.so (no IR to encode)",
     "oracle: an independent TECMP parse in harness/tecmp.cpp"],
     "level": "bounded symbolic model checking of TECMP decode+convert against an independent parse, incl. inconsistent inner lengths"}
-PROPS["C02"]["jobs"] = lambda: c02_jobs() + [j for j in tecmp_jobs()]
+def _c02_tecmp():
+    # the exhaustive enumeration of unsupported type values is C15's business; C02 keeps the representatives
+    return [j for j in tecmp_jobs() if not (j.tier == "thorough" and j.entry == "h_tecmp" and ((j.defs["N"] == 40 and j.defs["MT"] not in (0, 1, 2, 3, 4, 0x0A, 0x55, 0xFF)) or j.defs["DT"] > 0xFF))]
+
+
+PROPS["C02"]["jobs"] = lambda: c02_jobs() + _c02_tecmp()
 
 
 # ------------------------------------------------------------------ C01 round trip
